@@ -101,9 +101,9 @@ def _rec_case(args):
     name, src, M = args
     from microjs import Context
     from microjs.errors import MemoryLimitError, TimeLimitError, JSError
-    t0 = time.time()
+    t0 = time.process_time()      # CPU time: "in time proportional to M" must not depend on the load of the machine
     try:
-        r = Context(memory_limit=M, time_limit=20).eval(src)
+        r = Context(memory_limit=M, time_limit=120).eval(src)
         kind = "returned " + repr(r)[:30]
     except MemoryLimitError:
         kind = "MemoryLimitError"
@@ -113,7 +113,7 @@ def _rec_case(args):
         kind = "JSError " + str(e)[:50]
     except BaseException as e:  # noqa
         kind = "HOST " + type(e).__name__
-    return name, M, kind, time.time() - t0
+    return name, M, kind, time.process_time() - t0
 
 
 @groups.group(id="C02.bounded.recursion", prop="C02", kind="B", functions=["microjs.context:Context.eval"])
@@ -137,6 +137,11 @@ def _residue_chunk(progs):
     from microjs import Context
     from microjs.errors import MemoryLimitError
     from microjs.vm import VM
+    import signal
+
+    def boom(*a):
+        raise TimeoutError("no result after 60 s of CPU time")
+    signal.signal(signal.SIGPROF, boom)
     bad = []
     n = 0
     for combo, leaf, prog in progs:
@@ -152,8 +157,9 @@ def _residue_chunk(progs):
             _l.append((len(self.stack), len(self.exception_handlers), len(self.call_stack)))
             return r
         VM.run = run
+        signal.setitimer(signal.ITIMER_PROF, 60)      # CPU-time watchdog instead of a wall-clock time_limit
         try:
-            r = Context(memory_limit=6000, time_limit=20).eval(src)
+            r = Context(memory_limit=6000).eval(src)
             if r != 1500:
                 bad.append((combo, leaf, src, f"returned {r!r}"))
             elif leftovers and leftovers[-1] != (0, 0, 0):
@@ -163,6 +169,7 @@ def _residue_chunk(progs):
         except Exception as e:  # noqa
             bad.append((combo, leaf, src, f"{type(e).__name__}: {str(e)[:80]}"))
         finally:
+            signal.setitimer(signal.ITIMER_PROF, 0)
             VM.run = orig
     return n, bad
 
